@@ -31,6 +31,7 @@ func c05Gen(c *core.Ctx) func(yield func(c05Case) bool) {
 	return func(yield func(c05Case) bool) {
 		ok := true
 		quickLazy := false // quick tier: deviations only with at most one lazy node
+		procNode := false
 		fam := func(n int, alphabet []int, orders [][]int, name string, bound int, obsList []int) {
 			allGraphs(n, alphabet, false, func(e [][]int) bool {
 				for lz := 0; lz < 1<<n; lz++ {
@@ -43,7 +44,7 @@ func c05Gen(c *core.Ctx) func(yield func(c05Case) bool) {
 					}
 					for _, obs := range obsList {
 						for _, base := range orders {
-							p := scen.GraphProg{N: n, Edges: e, Lazy: lazy, Obs: obs, Base: base, Config: true, Family: name}
+							p := scen.GraphProg{N: n, Edges: e, Lazy: lazy, Obs: obs, Base: base, Config: true, Family: name, ProcNode: procNode}
 							if bound > 0 {
 								p.Kinds = "P"
 							}
@@ -66,6 +67,12 @@ func c05Gen(c *core.Ctx) func(yield func(c05Case) bool) {
 			return
 		}
 		fam(3, three, perms(3), "n3-allorders", 0, []int{1})
+		if !ok {
+			return
+		}
+		procNode = true // a post-processor that is itself a component with injection points
+		fam(3, three, [][]int{{0, 1, 2}, {2, 1, 0}}, "n3-procnode", 0, []int{0, 1})
+		procNode = false
 		if !ok {
 			return
 		}
@@ -157,6 +164,33 @@ func c05Run(c *core.Ctx) {
 	Cases(c, c05Gen(c), func(c *core.Ctx, cs c05Case) {
 		p := &cs.GraphProg
 		ref := refGraph(p)
+		if p.ProcNode {
+			// the processor depends on node a: a (and what a needs) is created even when lazy
+			q := *p
+			q.Lazy = append([]bool{}, p.Lazy...)
+			q.Lazy[0] = false
+			need := refGraph(&q)
+			eager := refGraph(p)
+			for i := range ref.created {
+				ref.created[i] = eager.created[i]
+			}
+			var mark func(i int)
+			seen := make([]bool, p.N)
+			mark = func(i int) {
+				if seen[i] {
+					return
+				}
+				seen[i] = true
+				ref.created[i] = true
+				for j := 0; j < p.N; j++ {
+					if p.Edges[i][j] != 0 && j != i {
+						mark(j)
+					}
+				}
+			}
+			mark(0)
+			_ = need
+		}
 		body := func(ch *envx.Chooser) {
 			o := scen.RunGraph(p, ch)
 			c.S.Evaluations++
@@ -172,6 +206,40 @@ func c05Run(c *core.Ctx) {
 				return
 			}
 			log := o.RT.Log
+			if p.ProcNode {
+				var pn []string
+				for _, e := range log {
+					if strings.Contains(e, ":zz-procnode:") {
+						pn = append(pn, e)
+					}
+				}
+				want := []string{"aps:zz-procnode:dep=true:v0=v-a", "init:zz-procnode:dep=a:v0=v-a"}
+				if strings.Join(pn, " ") != strings.Join(want, " ") {
+					c.Report(key("procnode"), "processor-lifecycle", fmt.Sprintf("a post-processor with injection points of its own went through %v, want %v (populated, then AfterPropertiesSet, then Init, once)", pn, want), cc)
+					return
+				}
+				ia, ip := -1, -1
+				for i, e := range log {
+					if e == "init:a" && ia < 0 {
+						ia = i
+					}
+					if strings.HasPrefix(e, "init:zz-procnode:") {
+						ip = i
+					}
+				}
+				if !(ia >= 0 && ia < ip) {
+					c.Report(key("procnode-dep"), "dependency-order", fmt.Sprintf("the post-processor's Init ran before the Init of its dependency a; log=%s", strings.Join(log, " ")), cc)
+					return
+				}
+				// the remaining oracle speaks about the node events only
+				var rest []string
+				for _, e := range log {
+					if !strings.Contains(e, ":zz-procnode:") {
+						rest = append(rest, e)
+					}
+				}
+				log = rest
+			}
 			if msg := lifecycleCheck(p, log, p.Obs, ref.created); msg != "" {
 				c.Report(key("seq"), "lifecycle-sequence", msg+"  log="+strings.Join(log, " "), cc)
 				return
